@@ -158,9 +158,48 @@ type UploadTrace struct {
 
 // FolderUpload runs the client side of a folder upload.
 func (w *World) FolderUpload(remote string, ref []byte, items []UploadItem) (tr UploadTrace, err error) {
+	return w.FolderUploadCut(remote, ref, items, -1)
+}
+
+// ErrCut is returned by FolderUploadCut when the byte budget was used up and the connection was closed.
+var ErrCut = fmt.Errorf("connection cut by the harness")
+
+// cutConn lets a reference client send at most budget bytes, then closes the connection.
+type cutConn struct {
+	*Conn
+	budget int // < 0: unlimited
+	cut    bool
+}
+
+func (c *cutConn) Send(b []byte) {
+	if c.cut {
+		return
+	}
+	if c.budget >= 0 && len(b) > c.budget {
+		if c.budget > 0 {
+			c.Conn.Send(b[:c.budget])
+		}
+		c.budget, c.cut = 0, true
+		c.Conn.Close()
+		Quiesce()
+		return
+	}
+	if c.budget >= 0 {
+		c.budget -= len(b)
+	}
+	c.Conn.Send(b)
+}
+
+// FolderUploadCut is FolderUpload with the connection dying after the client sent cut bytes (cut < 0: never).
+func (w *World) FolderUploadCut(remote string, ref []byte, items []UploadItem, cut int) (tr UploadTrace, err error) {
 	var r4 [4]byte
 	copy(r4[:], ref)
-	c := w.OpenTransfer(remote)
+	c := &cutConn{Conn: w.OpenTransfer(remote), budget: cut}
+	defer func() {
+		if c.cut {
+			err = ErrCut
+		}
+	}()
 	defer func() {
 		c.Close()
 		settleFake(4 * time.Second)
